@@ -181,7 +181,10 @@ def check_case(case):
                 # CSC input (no gradient_g_sparse), so its get_lipschitz_sparse is never a group constant: not claimed.
                 if hasattr(df, "get_lipschitz_sparse") and nm != "LogisticGroup":
                     Ls = call("get_lipschitz_sparse", lambda: np.asarray(df.get_lipschitz_sparse(*sp, y), float))
-                    if Ls is not None:
+                    if Ls is not None and Ls.shape != (len(blocks),):
+                        bad("shape", "get_lipschitz_sparse", f"returned {Ls.shape} constants for {len(blocks)} blocks",
+                            blocks="group" if "groups" in spec else "feature")
+                    elif Ls is not None:
                         exact = "groups" not in spec
                         for k in range(len(blocks)):
                             lo = true[k] * ((1 - 1e-12) if exact else .95)
